@@ -240,7 +240,7 @@ func (relay *Relay) serveWriteLoop(
 }
 
 func (relay *Relay) sendPingWithTimeout(ctx context.Context, conn *websocket.Conn) error {
-	if relay.opt.PingDuration > 0 {
+	if relay.opt.SendTimeout > 0 {
 		var cancel context.CancelFunc
 		ctx, cancel = context.WithTimeout(ctx, relay.opt.SendTimeout)
 		defer cancel()
@@ -253,7 +253,7 @@ func (relay *Relay) sendMsgWithTimeout(
 	conn *websocket.Conn,
 	msg []byte,
 ) error {
-	if relay.opt.PingDuration > 0 {
+	if relay.opt.SendTimeout > 0 {
 		var cancel context.CancelFunc
 		ctx, cancel = context.WithTimeout(ctx, relay.opt.SendTimeout)
 		defer cancel()
